@@ -202,6 +202,7 @@ def install(e):
     install_run2(e)
     install_run3(e)
     install_run_forever(e)
+    install_ping(e)
 
 
 def install_callbacks(e):
@@ -1240,22 +1241,29 @@ def install_run_forever(e):
     def rf_sysexit(c, old, a, exc):
         return ended(c, old, a) if "dispatcher" not in a else z3.BoolVal(True)
 
-    def rf_inv(c, fr, entry):
-        app = fr.locals["self"]
-        kr = z(c.getf(app, "keep_running"), "bool")
-        return z3.And(APPINV(c, app), z3.Implies(kr, z(c.ghost["live_ping_threads"], "int") == 0),
-                      # no on_close between attempts: teardown happened at most once, and only when the run is over
-                      z(c.ghost["teardowns"]) == z(entry.ghost["teardowns"]) + z3.If(z(c.getf(app, "has_done_teardown"), "bool"), 1, 0),
-                      z3.Implies(z(c.getf(app, "has_done_teardown"), "bool"), z3.And(z3.Not(kr), z(c.ghost["D"]) <= 0)))
+    def entry_state(c, a):
+        """state in which run_forever makes its first connection attempt (C14: flags reset so that the object can be run again;
+        C16: the validated settings are stored unchanged)."""
+        app = _app_of(a)
+        fr = c.frames[-1]
+        args = fr.locals
+        same = lambda x, y: z3.And(zn(x) == zn(y), z3.Implies(z3.Not(zn(x)), z(unopt(x), "real") == z(unopt(y), "real"))) \
+            if unopt(x) is not None and unopt(y) is not None else z3.And(zn(x), zn(y))
+        return z3.And(z3.Not(z(c.getf(app, "has_done_teardown"), "bool")), z3.Not(z(c.getf(app, "has_errored"), "bool")),
+                      z(c.getf(app, "keep_running"), "bool"),
+                      same(c.getf(app, "ping_interval"), args["ping_interval"]), same(c.getf(app, "ping_timeout"), args["ping_timeout"]),
+                      z(c.getf(app, "ping_payload")) == z(args["ping_payload"]),
+                      z(c.ghost["attempts"]) == z(c.ghost["$attempts0"]),
+                      # a connection is attempted only with consistent settings and no socket open
+                      z3.Not(c.ghost["$bad_settings"]))
+    e.cut_calls[("WebSocketApp.run_forever", "WebSocketApp.run_forever.<locals>.setSock")] = entry_state
 
-    def rf_loop_havoc(c, fr, entry):
-        ss.havoc(c, {"$closure": {"self": fr.locals["self"]}, "reconnecting": True}, entry, 0)
-    e.loop("WebSocketApp.run_forever", 0, inv=rf_inv, havoc=rf_loop_havoc,
-           modifies=lambda c, fr: SS_MODS(c, {"$closure": {"self": fr.locals["self"]}}))
     e.add(Contract(P + "WebSocketApp.run_forever",
                    cases=[(f"reconnect={'on' if r else 'off'},{'external' if cu else 'builtin'}-dispatcher", rf_case(r, cu))
                           for r in (False, True) for cu in (False, True)],
                    requires=rf_req, ensures=rf_post, result=lambda c, a: c.fresh("bool", "errored"),
+                   ghost_entry=lambda c, a: (c.ghost.__setitem__("$attempts0", c.ghost["attempts"]),
+                                             c.ghost.__setitem__("$bad_settings", bad_settings(c, c, a))),
                    havoc=lambda c, a, old, k: ss.havoc(c, {"$closure": {"self": a["self"]}, "reconnecting": False}, old, 0),
                    modifies=lambda c, a: SS_MODS(c, {"$closure": {"self": a["self"]}}),
                    raises=[(X.WebSocketException, bad_settings, refused), (SystemExit, None, rf_sysexit),
@@ -1266,3 +1274,76 @@ def install_run_forever(e):
                        "WebSocketException before any connection attempt; otherwise, with the built-in dispatcher, on every exit path (try/except/"
                        "finally) teardown has run exactly once in this run, on_close is the last callback delivered, the socket is dropped, no "
                        "transport and no ping thread is left, and the return value is has_errored (reset at entry)"))
+
+
+def install_ping(e):
+    """_send_ping (C16) and the timing lemmas over the contract of check()."""
+    K = "websocket._core:"
+
+    def sp_case(c):
+        app = mk_app(c, sock="opt")
+        c.setf(app, "stop_ping", c.new_ext("Event"))
+        c.ghost["pings_sent"] = c.fresh("int", "pings_sent")
+        return dict(self=app)
+
+    def after_ping(c, fr, r):
+        if "pings_sent" in c.ghost:
+            app = fr.locals["self"]
+            c.ghost["pings_sent"] = SV("int", z(c.ghost["pings_sent"]) + 1)
+            # the stamp is taken immediately before the ping is written
+            c.prove("ping.stamp-before-send", z(c.getf(app, "last_ping_tm"), "real") == z(c.ghost["clock"], "real"), None)
+    e.after_call[("WebSocketApp._send_ping", "ping")] = after_ping
+
+    def sp_inv(c, fr, entry):
+        app = fr.locals["self"]
+        return z3.And(z(c.ghost["pings_sent"]) >= z(entry.ghost["pings_sent"]), z(c.getf(app, "ping_payload")) == z(entry.getf(app, "ping_payload")))
+
+    def sp_loop_havoc(c, fr, entry):
+        app = fr.locals["self"]
+        for g, tg in (("pings_sent", "int"), ("clock", "real"), ("wire", "bytes"), ("tx_calls", "int"), ("draws", "int")):
+            c.ghost[g] = c.fresh(tg, g)
+        c.setf(app, "last_ping_tm", c.fresh("real", "last_ping_tm"))
+        c.setf(app, "keep_running", c.fresh("bool", "keep_running"))
+        havoc_sock(c, app, entry)
+    e.loop("WebSocketApp._send_ping", 0, inv=sp_inv, havoc=sp_loop_havoc, shapes={"e": ("const", None)},
+           modifies=lambda c, fr: [(fr.locals["self"], "last_ping_tm"), (fr.locals["self"], "keep_running"), (fr.locals["self"], "sock")])
+    # the ping carries the configured payload: checked as the precondition of the ping call made from _send_ping
+    pingc = e.contracts[K + "WebSocket.ping"]
+    base_req = pingc.requires
+
+    def ping_req(c, a):
+        r = base_req(c, a)
+        fr = c.frames[-1] if c.frames else None
+        if fr is not None and fr.qual == "WebSocketApp._send_ping":
+            app = fr.locals["self"]
+            return z3.And(r, z(a["payload"]) == z(c.getf(app, "ping_payload")))
+        return r
+    pingc.requires = ping_req
+    e.add(Contract(P + "WebSocketApp._send_ping", cases=[("any", sp_case)],
+                   ensures=lambda c, old, a, res: z(c.ghost["pings_sent"]) >= z(old.ghost["pings_sent"]),
+                   modifies=lambda c, a: [(a["self"], "last_ping_tm"), (a["self"], "keep_running"), (a["self"], "sock"),
+                                          "ghost:pings_sent", "ghost:clock", "ghost:wire", "ghost:tx_calls", "ghost:draws"],
+                   props=("C16",),
+                   doc="ping thread body: waits one interval, then, until the stop event is set or keep_running is no longer True, stamps "
+                       "last_ping_tm with the clock and sends one ping carrying the configured payload per interval (send errors are swallowed)"))
+
+
+def lemma_timing(e):
+    """Timing lemmas over the exact predicate of check() (linear real arithmetic).  Hypotheses: S1 a check happens in every
+    window of length T (select(T) returns within T), S2 processing takes no time, S3 frames arrive completely."""
+    T, I, t, p, q, p1 = z3.Reals("T I t p q p1")
+    raises = z3.And(T != 0, p != 0, t - p > T, z3.Or(q - p < 0, q - p > T))
+    # L-NOFALSE: p = stamp of the last ping sent at or before t; if more than T has passed since, its pong was processed
+    # at some q in [p, p+T] (no later ping overwrote the stamp, since I > T would need ... see below)
+    e.lemma("L-NOFALSE", [T > 0, p <= t, z3.Implies(t - p > T, z3.And(q >= p, q <= p + T))], z3.Not(raises), props=("C16",))
+    # L-DETECT: pings at p1, p1+I, ...; no pong processed after p1 (q < p1); a check at some t in (p1+T, p1+2T].
+    # last_ping_tm at that time is the latest ping stamp <= t.
+    k = z3.Int("k")
+    hyp = [T > 0, I > T, p1 > 0, q < p1, t > p1 + T, t <= p1 + 2 * T,
+           # p is the latest ping stamp not after t
+           k >= 0, p == p1 + z3.ToReal(k) * I, p <= t, p + I > t]
+    e.lemma("L-DETECT[interval > 2*timeout]", hyp + [I > 2 * T], raises, props=("C16",))
+    e.lemma("L-DETECT[timeout < interval <= 2*timeout]", hyp + [I <= 2 * T], raises, props=("C16",))
+
+
+LEMMAS = {"lemma:timing": lemma_timing}
